@@ -943,4 +943,19 @@ pub fn run(out: &mut Out, thorough: bool, seed: u64) {
     prio2(out, &mut rng, thorough);
     poplar1(out, &mut rng, thorough);
     dp(out, &mut rng, thorough);
+    if thorough {
+        huge_instances(out);
+    }
+}
+
+/// instances whose gadget is called so often that the wire polynomials exceed the NTT's reach
+/// (2^20 roots): sharding must fail with an error, not panic.  (Verification of such a report, when
+/// sharding succeeds, is quadratic in the number of gadget calls and is not attempted here.)
+pub fn huge_instances(out: &mut Out) {
+    type PS = ParallelSum<Field128, Mul>;
+    for (len, chunk) in [(600_000usize, 1usize), (1_100_000, 2)] {
+        let Ok(typ) = Histogram::<Field128, PS>::new(len, chunk) else { continue };
+        let Ok(vdaf) = Prio3::<_, XofTurboShake128, 32>::new(2, 1, 3, typ) else { continue };
+        probe(out, Want::NoPanic, || format!("Prio3Histogram(len={}, chunk={}).shard", len, chunk), || vdaf.shard(b"", &1, &[0; 16]).map(|_| ()));
+    }
 }
